@@ -24,7 +24,7 @@ import (
 func init() {
 	register(stream{
 		name: "chain",
-		rule: "real signed delegations (sealed, then decoded) and invocations over a pool of 5 Ed25519 principals, checked with ExecutionAllowed / ExecutionAllowedWithArgsHook against a map-backed loader. Families: (principals) every chain of ≤ K links (K=2 quick, 3 thorough) over every (issuer, audience, subject∈{0,1,2,absent}) assignment × every invocation (issuer, subject) with a varying audience; (commands) conforming chains of 1–3 links with every assignment of a 6-command lattice (top, parent, child, sibling, shared textual prefix) to invocation and links; (time) every present/absent/past/future combination of not-before and expiration on the invocation and each link; (policy) constraining statements distributed over every link × argument maps, with and without an argument hook (replacing, failing); (random) chains of ≤ 8 (40 thorough) links with 0–2 deviations of any kind at any position, missing and duplicated proofs, irrelevant fields varied; (histories) the same invocation token validated several times while the loader's content, the argument hook and the wall clock (a bound two seconds away) change between validations. Added later: every scenario is decided FIVE ways on one token (twice in a row; through the hook entry point with an identity hook; with a hook that first validates an unrelated invocation; with a hook that first validates the scenario's repaired twin) and each verdict is held against the model; after construction the caller adds a key to the Args value it handed in (the token must not change); (twins) principals 5–9 = the key bytes of 0–4 under another key-type codec at every naming position; (key-types) RSA, P-256 and secp256k1 principals at every role, delegations decoded and as constructed; (command-pairs) every ordered pair of valid commands ≤ 4 (5) bytes over {/,a,b} as delegated/invoked and root/leaf, decided one after the other; (after-root, variant-cid, long-then-cut) proofs listed after the root, links named by another CID over the same digest, a 12-link chain alternating with cut versions of itself; (policy-long) 15…1000 always-true statements around the deciding one; (fresh-nbf, iat-future) constructed delegations with not-before = now, invocations issued in the future over not-yet-active links; (shared-policies) delegations built from policy slices that share one backing array; IsValidAt probes at years 1…100000 and 2^53-1 s.; (policy-optional) every operator over an optional selector on missing, null and present arguments at every link; (policy-neighbours) neighbouring links with policies of the same shape over different arguments, and the same statement over values of different kinds that print alike (100 / 100.0, bytes / their DAG-JSON map); (policy-non-finite) −Inf, +Inf and NaN arguments (own and from the hook) under every ordering statement; histories with a hook that overrides values inside the writeable clone it was given; (policy-beyond-int64) hand-assembled arguments and hook results holding an integer beyond int64 under every ordering statement; (policy-string-slice) slices of string arguments with multi-byte characters; (policy-whole-args) statements over the whole argument map and its value list, arguments supplied sorted and unsorted; (time-far) bounds some 285 years away; (command-multibyte) commands with multi-byte characters sharing prefixes that end inside or right after a character; (command-fold) commands differing only by lowercase letters that Unicode case folding equates (σ/ς, µ/μ, ſ/s, ı/i, θ/ϑ, β/ϐ); (command-concat) (delegated, invoked) pairs whose texts concatenate to the same string, decided one after the other in both orders. (case-twins) principals 13–17 = the identifier of 0–4 with the case of one letter flipped, at every naming position; (aligned-repeat) rule-conforming chains in which one delegation occurs twice or the subject reappears; (loader-error) a loader that reports an error of its own (not \"not found\") for one proof of a conforming chain, with and without handing the token over, both entry points; policies that use one selector twice (first where its failure does not decide) and connectives/quantifiers with one operand over missing required and one over missing optional data. Non-trivial = the chain has ≥ 1 link and at most two clause groups fail. Distinct = distinct protocol lines.",
+		rule: "real signed delegations (sealed, then decoded) and invocations over a pool of 5 Ed25519 principals, checked with ExecutionAllowed / ExecutionAllowedWithArgsHook against a map-backed loader. Families: (principals) every chain of ≤ K links (K=2 quick, 3 thorough) over every (issuer, audience, subject∈{0,1,2,absent}) assignment × every invocation (issuer, subject) with a varying audience; (commands) conforming chains of 1–3 links with every assignment of a 6-command lattice (top, parent, child, sibling, shared textual prefix) to invocation and links; (time) every present/absent/past/future combination of not-before and expiration on the invocation and each link; (policy) constraining statements distributed over every link × argument maps, with and without an argument hook (replacing, failing); (random) chains of ≤ 8 (40 thorough) links with 0–2 deviations of any kind at any position, missing and duplicated proofs, irrelevant fields varied; (histories) the same invocation token validated several times while the loader's content, the argument hook and the wall clock (a bound two seconds away) change between validations. Added later: every scenario is decided FIVE ways on one token (twice in a row; through the hook entry point with an identity hook; with a hook that first validates an unrelated invocation; with a hook that first validates the scenario's repaired twin) and each verdict is held against the model; after construction the caller adds a key to the Args value it handed in (the token must not change); (twins) principals 5–9 = the key bytes of 0–4 under another key-type codec at every naming position; (key-types) RSA, P-256 and secp256k1 principals at every role, delegations decoded and as constructed; (command-pairs) every ordered pair of valid commands ≤ 4 (5) bytes over {/,a,b} as delegated/invoked and root/leaf, decided one after the other; (after-root, variant-cid, long-then-cut) proofs listed after the root, links named by another CID over the same digest, a 12-link chain alternating with cut versions of itself; (policy-long) 15…1000 always-true statements around the deciding one; (fresh-nbf, iat-future) constructed delegations with not-before = now, invocations issued in the future over not-yet-active links; (shared-policies) delegations built from policy slices that share one backing array; IsValidAt probes at years 1…100000 and 2^53-1 s.; (policy-optional) every operator over an optional selector on missing, null and present arguments at every link; (policy-neighbours) neighbouring links with policies of the same shape over different arguments, and the same statement over values of different kinds that print alike (100 / 100.0, bytes / their DAG-JSON map); (policy-non-finite) −Inf, +Inf and NaN arguments (own and from the hook) under every ordering statement; histories with a hook that overrides values inside the writeable clone it was given; (policy-beyond-int64) hand-assembled arguments and hook results holding an integer beyond int64 under every ordering statement; (policy-string-slice) slices of string arguments with multi-byte characters; (policy-whole-args) statements over the whole argument map and its value list, arguments supplied sorted and unsorted; (time-far) bounds some 285 years away; (command-multibyte) commands with multi-byte characters sharing prefixes that end inside or right after a character; (command-fold) commands differing only by lowercase letters that Unicode case folding equates (σ/ς, µ/μ, ſ/s, ı/i, θ/ϑ, β/ϐ); (command-concat) (delegated, invoked) pairs whose texts concatenate to the same string, decided one after the other in both orders. (case-twins) principals 13–17 = the identifier of 0–4 with the case of one letter flipped, at every naming position; (aligned-repeat) rule-conforming chains in which one delegation occurs twice or the subject reappears; (loader-error) a loader that reports an error of its own (not \"not found\") for one proof of a conforming chain, with and without handing the token over, both entry points; policies that use one selector twice (first where its failure does not decide) and connectives/quantifiers with one operand over missing required and one over missing optional data. The same arguments put together by the invoker through several options (WithArguments then WithArgument, WithArgument for each, WithArguments twice) on conforming chains with policies: how the arguments were assembled is irrelevant to authorization. Non-trivial = the chain has ≥ 1 link and at most two clause groups fail. Distinct = distinct protocol lines.",
 		run:  runChainStream,
 		eval: evalChain,
 		cmp:  cmpChain,
@@ -385,7 +385,7 @@ func sharedProofs() (out string) {
 		root := mk("0~1~0~" + hxs(base) + "~P()~-~-")
 		leaf := mk("1~2~0~" + hxs(base) + "~P()~-~-")
 		narrowRoot := mk("0~1~0~" + hxs(base+"/bar") + "~P()~-~-") // under it, the leaf's command is a widening
-		foreignRoot := mk("3~1~3~" + hxs(base) + "~P()~-~-")        // another subject: the chain is not the subject's
+		foreignRoot := mk("3~1~3~" + hxs(base) + "~P()~-~-")       // another subject: the chain is not the subject's
 		loader := mapLoader{root.cid: root.tok, leaf.cid: leaf.tok, narrowRoot.cid: narrowRoot.tok, foreignRoot.cid: foreignRoot.tok}
 		cmd := command.MustParse(base)
 		prf := make([]cid.Cid, 0, 8)
@@ -627,7 +627,41 @@ func evalChain(line string) (out string, rd string) {
 	if err != nil {
 		return "bad-args " + err.Error(), rd
 	}
-	opts = append(opts, invocation.WithArguments(a))
+	// how the invoker puts the arguments together is irrelevant to authorization as well: one WithArguments (the default), a
+	// WithArguments for the first half followed by a WithArgument for each of the others ("argsplit"), a WithArgument for each
+	// ("argeach"), two WithArguments ("argtwice") — the token holds the same arguments, in the same order, each time
+	how := ""
+	if len(f) > 7 {
+		for _, o := range strings.Split(f[7], ",") {
+			if strings.HasPrefix(o, "arg") {
+				how = o
+			}
+		}
+	}
+	half := func(from, to int) *args.Args {
+		h := args.New()
+		for _, k := range a.Keys[from:to] {
+			h.Keys = append(h.Keys, k)
+			h.Values[k] = a.Values[k]
+		}
+		return h
+	}
+	n := len(a.Keys)
+	switch how {
+	case "argsplit":
+		opts = append(opts, invocation.WithArguments(half(0, n/2)))
+		for _, k := range a.Keys[n/2:] {
+			opts = append(opts, invocation.WithArgument(k, a.Values[k]))
+		}
+	case "argeach":
+		for _, k := range a.Keys {
+			opts = append(opts, invocation.WithArgument(k, a.Values[k]))
+		}
+	case "argtwice":
+		opts = append(opts, invocation.WithArguments(half(0, n/2)), invocation.WithArguments(half(n/2, n)))
+	default:
+		opts = append(opts, invocation.WithArguments(a))
+	}
 	// fields irrelevant to authorization: meta, nonce, cause, iat
 	if len(f) > 7 {
 		for _, o := range strings.Split(f[7], ",") {
@@ -886,7 +920,7 @@ var timeChoices = []string{"", "-7200", "7200"}
 var argMaps = []string{"m()", "m(61:i1)", "m(61:i2,62:s78)", "m(61:i1,62:s78,6c:l(i1,i2))"}
 var polChoices = []string{"", "P(ceq(" + "2e61" + ",i1))", "P(ceq(2e62,s78))", "P(cgt(2e61,i1))", "P(ceq(2e613f,i1))", "P(A(2e6c,cgt(2e,i0)))", "P(ceq(2e61,i1);ceq(2e62,s78))",
 	"P(cle(" + hxs(".zz.a?") + ",i10))", "P(A(" + hxs(".b[]?") + ",k(2e,2a)))"}
-var irrChoices = []string{"none", "meta", "nonce", "cause", "noiat", "iat", "meta,nonce,cause,iat", "emptynonce", "emptynonce,noiat", "iatfuture", "rawdlg"}
+var irrChoices = []string{"none", "meta", "nonce", "cause", "noiat", "iat", "meta,nonce,cause,iat", "emptynonce", "emptynonce,noiat", "iatfuture", "rawdlg", "argsplit", "argeach", "argtwice", "argsplit,meta", "argtwice,rawdlg"}
 
 func runChainStream(c *ctx) error {
 	principals()
@@ -987,6 +1021,14 @@ func runChainStream(c *ctx) error {
 				}
 				s.args = a
 				c.emitScenario(s, "policy")
+				if n == 1 || code%7 == 0 {
+					// the same arguments put together in another way by the invoker (several options instead of one)
+					for _, how := range []string{"argsplit", "argeach", "argtwice"} {
+						v := s
+						v.irr = how
+						c.emitScenario(v, "policy-args-assembly")
+					}
+				}
 				if code%5 == 0 {
 					// the hook's result decides, whatever the token's own arguments are
 					h := s
